@@ -33,13 +33,14 @@ namespace WV.C17
 open WV WV.Gen
 
 inductive Err where
-  | noTransition | assertion | attribute | value | onlyOnce | recursion | alreadyCalled | typeError
+  | noTransition | assertion | attribute | value | onlyOnce | recursion | alreadyCalled | typeError | schedulerStopped
   deriving DecidableEq, Repr
 
 def Err.name : Err → String
   | .noTransition => "NoTransition" | .assertion => "AssertionError" | .attribute => "AttributeError"
   | .value => "ValueError" | .onlyOnce => "CanOnlyDilateOnceError" | .recursion => "model-recursion"
   | .alreadyCalled => "AlreadyCalled" | .typeError => "TypeError"
+  | .schedulerStopped => "SchedulerStopped"
 
 /-- a JSON value as `json.loads` delivers it (numbers only as zero / non-zero: nothing here looks
     closer) -/
@@ -144,6 +145,15 @@ structure Conn where
   obsMgr : Bool       -- unfired when_disconnected observer: `manager.connector_connection_lost`
   deriving DecidableEq, Repr
 
+/-- a producer an application protocol registered on its subchannel (`transport.registerProducer`):
+    a push producer as it is, a pull producer wrapped in `PullToPush` (a task of the wormhole's
+    Cooperator) -/
+structure Prod where
+  waiter : Nat        -- the connect() call whose protocol registered it
+  pull : Bool
+  paused : Bool       -- ∈ `Outbound._paused_producers`
+  deriving DecidableEq, Repr
+
 /-- calls sitting in the eventual queue -/
 inductive Thunk where
   | accept (g c : Nat)            -- `Connector.accept(c)` of Connector g           (consider)
@@ -191,6 +201,9 @@ structure World where
   wnames : List (Option String)   -- per waiter: `some name` = a listen() for that subprotocol, `none` = a connect()
   eps : List (Bool × String)      -- endpoint objects the application holds: (is a listener endpoint, subprotocol)
   registered : List String        -- `SubchannelDemultiplex._factories` (names)
+  prods : List Prod               -- `Outbound._all_producers` (registration order)
+  outPaused : Bool                -- `Outbound._paused` (true until a connection is in use)
+  coopStopped : Bool              -- the wormhole's Cooperator has been stopped
   log : List String
   deriving Repr
 
@@ -200,7 +213,7 @@ def World.init (noListen asyncListen : Bool) (mySide : String) : World :=
     ms := Manager.init, key := false, dver := none, role := none, conn := none, timer := .none, tt := none,
     madeFirst := false, main := .noResult, mainObs := [], fired := false, stoppedObs := 0, nextGen := 0,
     ctors := [], listeners := [], attempts := [], conns := [], queue := [],
-    ts := Terminator.init, closed := 0, waiters := [], wnames := [], eps := [], registered := [], log := [] }
+    ts := Terminator.init, closed := 0, waiters := [], wnames := [], eps := [], registered := [], prods := [], outPaused := true, coopStopped := false, log := [] }
 
 abbrev Res := World × Option Err
 
@@ -411,9 +424,42 @@ def mInput (i : Manager.Input) (side : String) (n : Nat) (w : World) : Res :=
 def startPingTimer (w : World) : Res :=
   if w.role = some true then beginTiming { w with tt := some .connected } else (w, none)
 
-/-- the end of `connector_connection_made`: remember the connection, fire `_main_channel` once -/
+/-- `p.pauseProducing()` / `p.resumeProducing()` of a registered producer: for a pull producer this
+    is `CooperativeTask.pause()` / `.resume()`, which raise SchedulerStopped once the Cooperator has
+    been stopped -/
+def touchProducer (p : Prod) (w : World) : Option Err :=
+  if p.pull && w.coopStopped then some .schedulerStopped else none
+
+/-- `Outbound.pauseProducing()` (from `stop_using_connection`): every unpaused producer, in order,
+    is moved to the paused set and told to pause; an exception stops the loop -/
+def pauseLoop : List Prod → List Prod → World → Res
+  | done, [], w => ({ w with prods := done }, none)
+  | done, p :: rest, w =>
+    if p.paused then pauseLoop (done ++ [p]) rest w
+    else match touchProducer p w with
+      | some e => ({ w with prods := done ++ [{ p with paused := true }] ++ rest }, some e)
+      | none => pauseLoop (done ++ [{ p with paused := true }]) rest w
+
+def pauseAll (w : World) : Res :=
+  if w.outPaused then (w, none) else pauseLoop [] w.prods { w with outPaused := true }
+
+/-- `Outbound.resumeProducing()` (from `use_connection`; the transport never pushes back here):
+    every paused producer, in order, is moved to the unpaused set and told to resume -/
+def resumeLoop : List Prod → List Prod → World → Res
+  | done, [], w => ({ w with prods := done }, none)
+  | done, p :: rest, w =>
+    if !p.paused then resumeLoop (done ++ [p]) rest w
+    else match touchProducer p w with
+      | some e => ({ w with prods := done ++ [{ p with paused := false }] ++ rest }, some e)
+      | none => resumeLoop (done ++ [{ p with paused := false }]) rest w
+
+def resumeAll (w : World) : Res :=
+  if !w.outPaused then (w, none) else resumeLoop [] w.prods { w with outPaused := false }
+
+/-- the end of `connector_connection_made`: remember the connection, hand it to Outbound
+    (`use_connection` → `resumeProducing`), fire `_main_channel` once -/
 def useConnection (c : Nat) (w : World) : Res :=
-  let w3 := { w with conn := some c }
+  andThen (resumeAll { w with conn := some c }) fun w3 =>
   if w3.madeFirst then (w3, none) else mainFire { w3 with madeFirst := true }
 
 /-- `Manager.connector_connection_made(c)` -/
@@ -429,8 +475,11 @@ def connectionLost (w : World) : Res :=
   andThen (cancelTimer Flags.stop_using_checks_active w0) fun w1 =>
   let w2 := { w1 with conn := none }
   if w.conn.isNone then (w2, some .attribute) else
-  if w2.role = some true then mInput .connection_lost_leader "" 0 w2
-  else mInput .connection_lost_follower "" 0 w2
+  -- `Outbound.stop_using_connection()` → `pauseProducing()`: an exception here aborts
+  -- `connector_connection_lost` before the machine is told
+  andThen (pauseAll w2) fun w3 =>
+  if w3.role = some true then mInput .connection_lost_leader "" 0 w3
+  else mInput .connection_lost_follower "" 0 w3
 
 /-- `_find_shared_versions(my, their)`.  Today: anything that is not a list counts as `[]`
     (`shared_versions_requires_list`) and only the str entries go into the set
@@ -558,6 +607,25 @@ def tOuts (k : Terminator.Output → World → Res) : List Terminator.Output →
   | [], w => (w, none)
   | o :: os, w => andThen (k o w) (tOuts k os)
 
+/-- what `Dilator.stop()` does to the wormhole's Cooperator before anything else: today nothing;
+    `dilator_stop_stops_cooperator` (generated from the source) says whether it calls
+    `self._cooperator.stop()` -/
+def stopCoop (w : World) : World :=
+  if Flags.dilator_stop_stops_cooperator then { w with coopStopped := true } else w
+
+/-- `sc.registerProducer(producer, streaming)` by the protocol of connect() call `i`
+    (`Outbound.subchannel_registerProducer`): appended to `_all_producers`, paused iff Outbound is;
+    a pull producer is wrapped in `PullToPush` and started as a task of the Cooperator
+    (`startStreaming(paused)` pauses it at once if Outbound is paused) -/
+def registerProducer (i : Nat) (pull : Bool) (w : World) : Res :=
+  let p : Prod := { waiter := i, pull := pull, paused := w.outPaused }
+  let w1 := { w with prods := w.prods ++ [p] }
+  if pull && w.outPaused then
+    (match touchProducer p w1 with
+     | some e => (w1, some e)
+     | none => (w1, none))
+  else (w1, none)
+
 /-- an Automat input of the Terminator.  `stop_dilator` calls `Dilator.stop`, which (without a
     Manager) calls `T.stoppedD()` re-entrantly: `fuel` bounds that nesting (`termFuel` = 3 is enough: by
     `Props.C17.stop_from_every_state` the call returns normally). -/
@@ -576,9 +644,9 @@ def tInput : Nat → Terminator.Input → World → Res
         | .B_closed => (emit "B.closed" { w with closed := w.closed + 1 }, none)
         | .stop_dilator =>
           -- Dilator.stop()
-          if w.hasMgr then
-            andThen (mInput .k_stop "" 0 w) fun w1 => (whenStopped w1, none)
-          else tInput fuel .stoppedD w) outs { w with ts := s' }
+          if (stopCoop w).hasMgr then
+            andThen (mInput .k_stop "" 0 (stopCoop w)) fun w1 => (whenStopped w1, none)
+          else tInput fuel .stoppedD (stopCoop w)) outs { w with ts := s' }
 
 def termFuel : Nat := 3
 
@@ -606,6 +674,7 @@ inductive Ev where
   | ep (listener : Bool) (name : String)   -- `api.listener_for(name)` / `api.connector_for(name)`: keep the endpoint
   | econnect (k : Nat)                     -- `.connect(f)` on held endpoint k
   | elisten (k : Nat)                      -- `.listen(f)` on held endpoint k
+  | producer (pull : Bool) (i : Nat)       -- the protocol of connect() call i registers a producer on its subchannel
   | term (i : Terminator.Input)
   | turn
   | expire                  -- the ping interval is over: the pending DelayedCall `_timer` fires
@@ -644,6 +713,11 @@ def step (w : World) : Ev → World × Out
     match w.eps[k]? with
     | none => (w, .refused "no-such")
     | some (l, name) => if l then (connectAs (some name) w, .done) else (w, .refused "not-listener")
+  | .producer pull i =>
+    match w.waiters[i]?, w.wnames[i]? with
+    | some .ok, some none =>
+      if w.prods.any (·.waiter == i) then (w, .refused "has-producer") else ofRes (registerProducer i pull w)
+    | _, _ => (w, .refused "no-protocol")
   | .term i => ofRes (tInput termFuel i w)
   | .turn => (turn w, .done)
   | .expire =>
@@ -757,6 +831,9 @@ def showTT : Option TrafficTimer.State → String
   | some s => TrafficTimer.State.name s
   | none => "-"
 
+def showProd (p : Prod) : String :=
+  s!"{p.waiter}:{if p.pull then "pull" else "push"}:{if p.paused then "p" else "u"}"
+
 def showMain : MainRes → String
   | .noResult => "none" | .fired => "ok" | .failed => "err"
 
@@ -788,7 +865,7 @@ def showWorld (w : World) : String :=
       s!"M={Manager.State.name w.ms} key={b01 w.key} ver={ver} role={role} conn={conn} timer={showTimer w.timer} tt={showTT w.tt} main={showMain w.main} fired={b01 w.fired}"
     else "M=- key=0 ver=- role=- conn=- timer=none tt=- main=- fired=0"
   let cs := (enumFrom 0 w.ctors).map fun (g, st) => showCtor w g st
-  s!"{mgr} T={Terminator.State.name w.ts} closed={w.closed} D={b01 w.pKey}{b01 w.pVers.isSome}{w.pMsgs.length} W=[{" ".intercalate (w.waiters.map showW)}] E={w.eps.length} R=[{" ".intercalate w.registered}] C=[{" | ".intercalate cs}]"
+  s!"{mgr} T={Terminator.State.name w.ts} closed={w.closed} D={b01 w.pKey}{b01 w.pVers.isSome}{w.pMsgs.length} W=[{" ".intercalate (w.waiters.map showW)}] E={w.eps.length} R=[{" ".intercalate w.registered}] P=[{" ".intercalate (w.prods.map showProd)}] out={if w.outPaused then "paused" else "running"} coop={b01 w.coopStopped} C=[{" | ".intercalate cs}]"
 
 def canDilate (l : List String) : Vers := .obj [("can-dilate", .arr (l.map .str)), ("app_versions", .obj [])]
 
@@ -854,6 +931,8 @@ def readEv? : List String → Option Ev
   | ["ep", "c", n] => some (.ep false n)
   | ["ep", "l", n] => some (.ep true n)
   | ["econnect", k] => k.toNat?.map .econnect
+  | ["producer", "pull", i] => i.toNat?.map (.producer true)
+  | ["producer", "push", i] => i.toNat?.map (.producer false)
   | ["elisten", k] => k.toNat?.map .elisten
   | ["turn"] => some .turn
   | ["expire"] => some .expire
